@@ -139,7 +139,9 @@ impl Ctx {
         }
     }
     /// Execute one case on the implementation (counts as an evaluation). Every
-    /// 97th execution is repeated and must give the identical observation.
+    /// 97th execution is repeated and must give the identical observation; the repetition runs on a thread of its
+    /// own, so that state the subject keeps in thread-locals between two runs in one process (which a real run, being a
+    /// process of its own, never sees) shows as a divergence instead of silently shaping every later run.
     pub fn run(&mut self, case: &Case) -> Obs {
         self.rep.evaluations += 1;
         if self.rep.evaluations % 512 == 0 && self.last_snap.elapsed().as_secs() >= 2 {
@@ -147,7 +149,7 @@ impl Ctx {
         }
         let o = drive::run(case);
         if self.rep.evaluations % 97 == 0 {
-            let o2 = drive::run(case);
+            let o2 = std::thread::scope(|s| s.spawn(|| drive::run(case)).join()).unwrap_or_else(|_| drive::run(case));
             if o != o2 {
                 self.rep.machinery_errors.push(format!(
                     "nondeterministic observation for case {}: {} vs {}",
